@@ -42,7 +42,11 @@ Theorem C08_temp_ignored :
 Proof. exact load_ignores_tmp. Qed.
 Print Assumptions C08_temp_ignored.
 
-(* A failing write (the k-th write of the sorted-docs or of the index file, for every k that
+(* The fault is TRANSIENT: [do_write] fails exactly the fk-th Write call on the target file and
+   would let every other call succeed - so the error has to be propagated at the failing call
+   itself; a later write cannot "report it again". (A persistent fault - k and every later write
+   fail - gives the same run, because nothing is written after the first error.)
+   A failing write (the k-th write of the sorted-docs or of the index file, for every k that
    exists) makes Seal return an error; then the index is not renamed into place, no file is
    removed, and a failed sorted-docs write does not publish .sdocs either. *)
 Theorem C08_fault_not_published :
